@@ -246,6 +246,92 @@ rotate_harness!(c26_rotate_h1, 1, 5, false);
 rotate_harness!(c26_rotate_h2, 2, 5, false);
 rotate_harness!(c26_rotate_h3, 3, 5, false);
 
+/// Rotation of a provider that holds MORE than history + 1 keys (what `KeySetProvider::load(file,
+/// smaller_history)` produces after the operator lowered the stale-key count): `n` keys with ids
+/// off..off+n-1 (arbitrary u32 offset), primary n-1, history `h < n-1`. One rotation drops
+/// `n - h` keys at once. A cookie issued beforehand under key `p` (symbolic; the issuing view has
+/// the same keys/ids with primary = p) must decode afterwards to the same contents iff key `p` is
+/// among the `h` retained ones; ids of retained keys do not move; the new key gets the next id.
+fn shrunk_body(n: usize, h: usize) {
+    symbolic_aead(MODE_EXPECT_OK);
+    let keys = symbolic_keys(n + 1); // keys[0] = the key rotate() will draw, keys[1..=n] = stored keys
+    let off: u32 = kani::any();
+    let p: u32 = kani::any();
+    kani::assume((p as usize) < n);
+    let s2c: [u8; 32] = kani::any();
+    let c2s: [u8; 32] = kani::any();
+    let mk = |primary: u32| {
+        let mut v = Vec::with_capacity(n);
+        let mut k = 1;
+        while k <= n {
+            v.push(key512(keys[k]));
+            k += 1;
+        }
+        kh::keyset_from_parts(v, off, primary)
+    };
+    let issuer = mk(p);
+    let mut provider = kh::provider_from_parts(mk(n as u32 - 1), h);
+    let c = cookie256(s2c, c2s);
+    let enc = kh::keyset_encode_cookie(&issuer, &c);
+    let id = u32::from_be_bytes([enc[0], enc[1], enc[2], enc[3]]);
+    assert!(id == off.wrapping_add(p), "cookie carries the id of the key it was issued under");
+
+    provider.rotate();
+    let now = provider.get();
+    let kept = if h < n { h } else { n };
+    let dropped = n - kept;
+    // shape of the rotated set
+    assert!(kh::keyset_len(&now) == kept + 1, "history old keys + the new one are kept");
+    assert!(kh::keyset_primary(&now) as usize == kept, "the new key is primary");
+    let new_primary_id = kh::keyset_id_offset(&now).wrapping_add(kh::keyset_primary(&now));
+    assert!(new_primary_id == off.wrapping_add(n as u32), "new primary id = old primary id + 1 (mod 2^32)");
+    if model_active() {
+        assert!(eq64(kh::keyset_key_bytes(&now, kept), &keys[0]), "the primary is the freshly drawn key");
+    }
+    let mut k = 0;
+    while k < kept {
+        assert!(eq64(kh::keyset_key_bytes(&now, k), &keys[1 + dropped + k]), "the newest `history` old keys are retained in order");
+        k += 1;
+    }
+    // behaviour: the old cookie
+    let retained = (p as usize) >= dropped;
+    let (ok, same) = match kh::keyset_decode_cookie(&now, &enc) {
+        Ok(d) => {
+            let same = same_cookie(&d, 15, &s2c, &c2s);
+            std::mem::forget(d);
+            (true, same)
+        }
+        Err(_) => (false, false),
+    };
+    assert!(ok || !retained, "a cookie of a retained key (inside the configured window) must decode");
+    assert!(!ok || retained, "a cookie of a dropped key must not decode");
+    assert!(!ok || same, "a cookie of a retained key decodes to the same algorithm and keys");
+    // witnesses (phrased so that they exist for every (n, h), also h = 0 where nothing is retained)
+    kani::cover!(p as usize == n - 1 && ok == (h >= 1), "cookie of the previous primary: decodes iff history >= 1");
+    kani::cover!(p as usize + 1 == dropped && !ok, "cookie of the newest dropped key rejected");
+    kani::cover!(p == 0 && !ok, "cookie of the oldest key rejected");
+    kani::cover!(p as usize == n - 1 && new_primary_id < id, "key ids wrap around u32 between the old and the new primary");
+    std::mem::forget(c);
+    std::mem::forget(issuer);
+    std::mem::forget(now);
+    std::mem::forget(provider);
+}
+
+macro_rules! shrunk_harness {
+    ($name:ident, $n:expr, $h:expr) => {
+        crate::ks_harness_spec! {
+            #[kani::unwind(66)]
+            fn $name() { shrunk_body($n, $h) }
+        }
+    };
+}
+shrunk_harness!(c26_rotate_shrunk, 4, 1); // quick: 3 keys dropped at once, previous primary kept
+shrunk_harness!(c26_rotate_shrunk_n3h0, 3, 0); // quick: everything old dropped
+shrunk_harness!(c26_rotate_shrunk_n4h2, 4, 2);
+shrunk_harness!(c26_rotate_shrunk_n4h0, 4, 0);
+shrunk_harness!(c26_rotate_shrunk_n3h1, 3, 1);
+shrunk_harness!(c26_rotate_shrunk_n2h0, 2, 0);
+
 // ------------------------------------------------------------------ tamper evidence
 /// Two valid keys (ids off, off+1), cookie issued under the newer one, one byte inside the
 /// declared length XORed with a non-zero mask: decode must fail.
